@@ -170,9 +170,10 @@ func c16Gen(r *rng.Rand, i int, tier string) interface{} {
 	return in
 }
 
-// ---- executable mirror of Catalog.key_guard ----
-
-func keyGuard(key string) bool {
+// climbs reports whether the item part of a key would leave its starting directory if it were joined into a path
+// (” and '.' stay, '..' goes up, anything else goes down).  Since the fix "AddTimeBucket validates the items of the
+// key" such keys are rejected; the predicate only tags the input distribution.
+func climbs(key string) bool {
 	item := strings.Split(key, ":")[0]
 	d := 0
 	for _, c := range strings.Split(item, "/") {
@@ -180,22 +181,14 @@ func keyGuard(key string) bool {
 		case "", ".":
 		case "..":
 			if d == 0 {
-				return false
+				return true
 			}
 			d--
 		default:
 			d++
 		}
 	}
-	return true
-}
-
-// opGuard mirrors Catalog_facts.op_guard: only requests that can create need a guarded key.
-func opGuard(op CatOp) bool {
-	if op.Op == "create" || op.Op == "write" {
-		return keyGuard(op.Key)
-	}
-	return true
+	return false
 }
 
 func c16Run(raw json.RawMessage) (res Result, err error) {
@@ -210,15 +203,10 @@ func c16Run(raw json.RawMessage) (res Result, err error) {
 		}
 	}
 	res.Holds = true
-	guardAll := true
 	obs, coqOps, coqObs, err := catRun(in.Ops, false, func(i int, op CatOp, o *catStepObs) {
-		guardAll = guardAll && opGuard(op)
 		if len(o.Outside) > 0 && res.Holds {
 			res.Holds = false
 			res.Detail = fmt.Sprintf("op %d (%s %q) changed the file system outside the root: %s", i, op.Op, op.Key, strings.Join(o.Outside, ", "))
-			if !guardAll {
-				res.Class = "key-climbs-above-root"
-			}
 		}
 	})
 	if err != nil {
@@ -243,7 +231,7 @@ func c16Run(raw json.RawMessage) (res Result, err error) {
 	res.Obs = map[string]interface{}{"steps": obs, "paths": pl}
 	res.Coq = cq.Rec(cq.F("k_root", cq.Hex([]byte(catinst.ModelRoot))), cq.F("k_ops", cq.List(coqOps)), cq.F("k_obs", cq.List(coqObs)),
 		cq.F("k_paths", cqBlob(pf)))
-	res.InDomain = guardAll
+	res.InDomain = true // the theorem holds for all keys
 	// tags
 	nMut := 0
 	for i, op := range in.Ops {
@@ -251,21 +239,16 @@ func c16Run(raw json.RawMessage) (res Result, err error) {
 		if obs[i].Code == 0 && op.Op != "query" {
 			nMut++
 		}
-		if !opGuard(op) {
+		if (op.Op == "create" || op.Op == "write") && climbs(op.Key) {
 			res.Tags = append(res.Tags, "climbing-key")
 		} else if strings.Contains(strings.Split(op.Key, ":")[0], "..") || strings.Contains(op.Key, "//") || strings.HasPrefix(op.Key, "/") {
-			res.Tags = append(res.Tags, "odd-but-guarded-key")
+			res.Tags = append(res.Tags, "odd-key")
 		}
-	}
-	if guardAll {
-		res.Tags = append(res.Tags, "in-domain")
-	} else {
-		res.Tags = append(res.Tags, "outside-domain")
 	}
 	if !res.Holds {
 		res.Tags = append(res.Tags, "escaped")
 	}
-	res.Nontrivial = guardAll && nMut >= 1
+	res.Nontrivial = nMut >= 1
 	res.Key = string(raw)
 	return res, nil
 }
@@ -279,7 +262,7 @@ func init() {
 			"DataService.Destroy, query) on a fresh instance in a sandbox whose data root is four levels deep; ~45% of the runs use hostile keys " +
 			"('..', '.', empty, absolute-looking, extra/missing components, reserved names, odd category keys; at most three '..' per key); the whole " +
 			"sandbox is listed after every request; plus 2-4 random string pairs for the lexical path functions; distinct = distinct input JSON; " +
-			"non-trivial = all keys inside the guard and at least one successful mutating request",
+			"non-trivial = at least one successful mutating request",
 		Gen: c16Gen,
 		Run: c16Run,
 	})
